@@ -87,6 +87,9 @@ type Exec struct {
 	ReqCells []Cell
 	ReqScan  *pb.ScanRequest
 	Header   *pb.RequestHeader
+	ArrStep  uint64 // scheduler step at which the request frame was written
+	Step     uint64 // scheduler step of the execution
+	RespEnd  int    // end offset of the response in the connection's response stream (0 = none)
 }
 
 // ServerConn is the server side of one client connection.
@@ -113,6 +116,7 @@ type Request struct {
 	Msg     proto.Message
 	Cells   []Cell
 	Arrived int64
+	ArrStep uint64
 	Seq     int
 }
 
@@ -168,6 +172,9 @@ func (sc *ServerConn) Feed(b []byte) {
 		req := &Request{Conn: sc, Frame: f, CallID: id, Method: f.Header.GetMethodName()}
 		if c.Now != nil {
 			req.Arrived = c.Now()
+		}
+		if c.StepFn != nil {
+			req.ArrStep = c.StepFn()
 		}
 		reqSeq++
 		req.Seq = reqSeq
@@ -328,7 +335,10 @@ func (c *Cluster) excMsg(class, msg string, e *Exec) string {
 
 func (c *Cluster) newExec(req *Request, kind string) *Exec {
 	c.ExecSeq++
-	e := &Exec{Seq: c.ExecSeq, Kind: kind, Server: req.Conn.Server.Idx, Conn: req.Conn.ID, CallID: req.CallID, ReqSeq: req.Seq, Header: req.Frame.Header}
+	e := &Exec{Seq: c.ExecSeq, Kind: kind, Server: req.Conn.Server.Idx, Conn: req.Conn.ID, CallID: req.CallID, ReqSeq: req.Seq, Header: req.Frame.Header, ArrStep: req.ArrStep}
+	if c.StepFn != nil {
+		e.Step = c.StepFn()
+	}
 	if c.Now != nil {
 		e.Time = c.Now()
 	}
